@@ -301,7 +301,7 @@ void BaseBuilder::remove_nodes(BaseNode* first, BaseNode* last) noexcept {
 
   for (;;) {
     next = node->next();
-    ASMJIT_ASSERT(next != nullptr);
+    ASMJIT_ASSERT(next != nullptr || node == last);
 
     node->_prev = nullptr;
     node->_next = nullptr;
